@@ -91,7 +91,26 @@ inline void strand_delta(int d) {
     p->active_strands += d;
     if (p->active_strands > p->max_active_strands) p->max_active_strands = p->active_strands;
 }
-inline bool flip(int tag, int pm) { Chooser *c = Sched::get().chooser(); return c ? c->flip(tag, pm) : false; }
+// bisect this node?  (shared per-region leaf counter: simulator bookkeeping, invisible to TSan)
+inline bool want_split(int &leaves) {
+    IgnoreGuard ig;
+    if (leaves >= tbbcfg.max_leaves) return false;
+    Chooser *c = Sched::get().chooser();
+    if (!c || !c->flip(T_SPLIT, tbbcfg.split_pm)) return false;
+    leaves++; tbbstats.splits++;
+    return true;
+}
+// a strand that waited for a stolen child becomes active again only when a worker is free:
+// real TBB's waiting thread runs other tasks meanwhile and is itself one of the W workers
+struct ResumeArg { ProcCtx *p; int W; };
+inline bool resume_cond(void *a) { ResumeArg *r = (ResumeArg*) a; return r->p->active_strands < r->W; }
+inline void strand_resume(int W) {
+    ResumeArg a { cur_proc(), W < 1 ? 1 : W };
+    Sched &s = Sched::get();
+    if (s.active() && !s.is_aborting()) s.wait_until(&resume_cond, &a);
+    strand_delta(+1);
+}
+inline bool flip(int tag, int pm) { IgnoreGuard ig; Chooser *c = Sched::get().chooser(); return c ? c->flip(tag, pm) : false; }
 
 } // namespace sim
 
@@ -162,8 +181,7 @@ void for_strand_fn(void *p) {
 template<class Range, class Body>
 void for_exec(ForCtx<Range, Body> &c, Range &range) {
     sim::Sched &s = sim::Sched::get();
-    if (range.is_divisible() && c.leaves < sim::tbbcfg.max_leaves && sim::flip(sim::T_SPLIT, sim::tbbcfg.split_pm)) {
-        c.leaves++; { sim::IgnoreGuard ig; sim::tbbstats.splits++; }
+    if (range.is_divisible() && sim::want_split(c.leaves)) {
         Range right(range, split());
         if (sim::may_steal(c.W) && sim::flip(sim::T_STEAL, sim::tbbcfg.steal_pm)) {
             { sim::IgnoreGuard ig; sim::tbbstats.steals++; }
@@ -174,7 +192,7 @@ void for_exec(ForCtx<Range, Body> &c, Range &range) {
             try { for_exec(c, range); } catch (const sim::SimAbort&) { s.join(id); throw; } catch (...) { mine = std::current_exception(); }
             sim::strand_delta(-1);
             s.join(id);
-            sim::strand_delta(+1);
+            sim::strand_resume(c.W);
             if (s.is_aborting()) throw sim::SimAbort();
             if (mine) std::rethrow_exception(mine);
             if (st.ex) std::rethrow_exception(st.ex);
@@ -254,8 +272,7 @@ void red_strand_fn(void *p) {
 template<class Range, class Value, class Body, class Red>
 void red_exec(RedCtx<Range, Value, Body, Red> &c, Range &range, Value &acc) {
     sim::Sched &s = sim::Sched::get();
-    if (range.is_divisible() && c.leaves < sim::tbbcfg.max_leaves && sim::flip(sim::T_SPLIT, sim::tbbcfg.split_pm)) {
-        c.leaves++; { sim::IgnoreGuard ig; sim::tbbstats.splits++; }
+    if (range.is_divisible() && sim::want_split(c.leaves)) {
         Range right(range, split());
         if (sim::may_steal(c.W) && sim::flip(sim::T_STEAL, sim::tbbcfg.steal_pm)) {
             { sim::IgnoreGuard ig; sim::tbbstats.steals++; c.runs++; }
@@ -268,7 +285,7 @@ void red_exec(RedCtx<Range, Value, Body, Red> &c, Range &range, Value &acc) {
             catch (...) { mine = std::current_exception(); }
             sim::strand_delta(-1);
             s.join(id);
-            sim::strand_delta(+1);
+            sim::strand_resume(c.W);
             struct Cleanup { RedStrand<Range, Value, Body, Red> &st; ~Cleanup() { if (st.constructed) st.value().~Value(); } } cleanup { st };
             if (s.is_aborting()) throw sim::SimAbort();
             if (mine) std::rethrow_exception(mine);
@@ -302,7 +319,7 @@ Value parallel_reduce(const Range &range, const Value &identity, const RealBody 
     detail_sim::RedCtx<Range, Value, RealBody, Reduction> c { &identity, &real_body, &reduction, rs.W, 1, 1 };
     Range r(range);
     detail_sim::red_exec(c, r, acc);
-    if (c.runs > 1) { sim::IgnoreGuard ig; sim::tbbstats.reduce_multi_run++; }
+    { sim::IgnoreGuard ig; if (c.runs > 1) sim::tbbstats.reduce_multi_run++; }
     return acc;
 }
 template<class Range, class Value, class RealBody, class Reduction, class Partitioner>
@@ -314,8 +331,7 @@ Value parallel_reduce(const Range &range, const Value &identity, const RealBody 
 namespace detail_sim {
 template<class Range, class Body> void ired_exec(int W, int &leaves, Range &range, Body &body) {
     sim::Sched &s = sim::Sched::get();
-    if (range.is_divisible() && leaves < sim::tbbcfg.max_leaves && sim::flip(sim::T_SPLIT, sim::tbbcfg.split_pm)) {
-        leaves++;
+    if (range.is_divisible() && sim::want_split(leaves)) {
         Range right(range, split());
         if (sim::may_steal(W) && sim::flip(sim::T_STEAL, sim::tbbcfg.steal_pm)) {
             // executed inline but on a split body: value semantics identical, no interleaving explored
